@@ -1042,6 +1042,17 @@ func evalLiteralExpr(expr ast.Expr) (interface{}, bool) {
 			obj[field.Key] = val
 		}
 		return obj, true
+	case ast.UnaryOpExpr:
+		// A negative number literal (= -1) parses as negation of a literal.
+		if v, ok := evalLiteralExpr(e.Right); ok && e.Op == ast.Neg {
+			switch n := v.(type) {
+			case int64:
+				return -n, true
+			case float64:
+				return -n, true
+			}
+		}
+		return nil, false
 	}
 	lit, ok := expr.(ast.LiteralExpr)
 	if !ok {
